@@ -156,6 +156,7 @@ def run_cases(ctx: Ctx, n_cases: int, n_values: int, judge: Dict[str, bool]) -> 
             shutil.rmtree(d, ignore_errors=True)
         if ctx.replay is not None:
             break
+    res.observe("trace_monitor_attached", str(getattr(tr, "attached", True)))
     res.count("trace_base_type_calls", tr.total_calls)
     res.count("trace_single_byte_steps", tr.total_steps)
     for name, n in py_trace.COUNTS.items():
